@@ -16,7 +16,7 @@ CHECKS = {
         "written reference checker driven by the harness's own type terms; annotations are enumerated exhaustively to depth 2 "
         "over the constructor alphabet and sampled at depth 3, values are aimed at each structural position. Held = no "
         "disagreement and no exception on the pairs observed; sampling, not proof.",
-        "Trusted: vlib/refcheck.py as the reading of the documented semantics; NaN/Fraction and Type[non-class] are out of the judged language.",
+        "Trusted: vlib/refcheck.py as the reading of the documented semantics; Fraction and Type[non-class] are out of the judged language (NaN is judged against bounded types only).",
         "DESIGN.md §3 C15",
     ),
 }
@@ -29,7 +29,7 @@ CHECKS["C13"] = (
     "slices, ==) plus _list/_dict coherence is compared, raising operations must raise the documented family and leave the view "
     "unchanged. All start containers (<=3 items of a 3-key x 2-payload universe) x all operations/arguments are enumerated to "
     "sequence length 1 (quick) / 2 (thorough), with seeded-random 30-operation histories beyond, over 8 item universes.",
-    "Trusted: the model in checks/c13.py; typed-ness of derived containers and order of keys()/items() are not judged.",
+    "Trusted: the model in checks/c13.py; typed-ness of derived containers is not judged; keys()/items() are judged as sequences in list order, also through views taken earlier.",
     "DESIGN.md §3 C13",
 )
 CHECKS["C14"] = (
@@ -109,7 +109,7 @@ CHECKS["C02"] = (
     "the call's own arguments or a do_not_copy attribute, and untouched do_not_copy attributes must be identical objects. Then 1-4 "
     "in-place changes (API operations and direct mutation of nested containers / nested spec instances) are applied to the result and "
     "the receiver's snapshot must not move, and vice versa.",
-    "Trusted: vlib/snap.py graph walk. do_not_copy=True classes, frozen classes and do_not_copy x subclassing are outside the judged receivers.",
+    "Trusted: vlib/snap.py graph walk. do_not_copy=True classes and frozen classes are outside the judged receivers; do_not_copy x subclassing is judged with the inheritance rule of classgen.dnc_status (an explicit list that leaves out an attribute inherited as do_not_copy is UNSPECIFIED). What receiver and copy *read* for attributes neither stores (class-level values) is compared as well.",
     "DESIGN.md §3 C02",
 )
 
@@ -121,7 +121,7 @@ CHECKS["C08"] = (
     "to a constructor and of every other live instance must not move; after every reset/deletion the attribute must equal what a "
     "fresh instance of the same class holds, be a fresh object and be missing iff there is no default. All nine ways of declaring a "
     "default (literal, Attr, factory, field, field factory, none, spec re-declare, spec re-default, plain override) are gated.",
-    "Trusted: snapshot walker; a fresh instance as the reference for defaults. do_not_copy attributes excluded (sharing is declared).",
+    "Trusted: snapshot walker; a fresh instance as the reference for defaults. do_not_copy attributes are excluded from the generated histories (copies share them by declaration); that independently constructed instances do not share their default is judged by directed cases.",
     "DESIGN.md §3 C08",
 )
 
@@ -170,7 +170,7 @@ CHECKS["C20"] = (
     "all single preemptions at every executed line of utils/mutation.py, all (thorough) or sampled (quick) double preemptions, and "
     "PCT-style random priorities; every thread must succeed and the table must equal the baseline afterwards.",
     "Trusted: the scheduler only preempts at statement starts (any schedule it produces is real; schedules inside a statement are not explored). "
-    "with-statement lines are not used as abort points. Open known finding: aborts inside the bookkeeping methods themselves.",
+    "with-statement lines are not used as abort points. Open known finding: an abort at the first statements of __exit__ (before the release has begun). The stack-exhaustion op runs on the library's own __enter__/__exit__ and a real lock (harness wrappers cost frames).",
     "DESIGN.md §3 C20",
 )
 
@@ -198,7 +198,7 @@ CHECKS["C10"] = (
     "with the reference verdict, triples for transitivity, sub/superclass pairs for symmetry only; deepcopy(x) == x and "
     "type(x)(**attrs) == x; repr of every instance incl. self references, cycles, empty and long values must not raise and must name "
     "exactly the repr-enabled attributes in declaration order at depth 0.",
-    "Trusted: the reference verdict (bound methods equal iff same function).",
+    "Trusted: the reference verdict (bound methods equal iff same function and receivers that stand for each other: each operand's own method, the same or equal objects).",
     "DESIGN.md §3 C10",
 )
 
@@ -239,7 +239,7 @@ CHECKS["C16"] = (
     "4 element helpers per collection under the table singular, top-level helpers, dunders per switches, aliases) minus occupied ones. "
     "Directed cases: attrs with private names -> ValueError; child/children and num/nums collisions -> <attr>_item; double collision "
     "-> RuntimeError.",
-    "Trusted: naming model and singular table in checks/c16.py. __new__ (lazy residue) and a created __annotations__ are tolerated.",
+    "Trusted: naming model and singular table in checks/c16.py. __new__ (lazy residue) and a created __annotations__ are tolerated. More than one singular-name collision per class through multiple inheritance is not judged.",
     "DESIGN.md §3 C16",
 )
 
@@ -252,7 +252,7 @@ CHECKS["C09"] = (
     "keywords (exhaustive up to 5 attributes), plus one non-conforming keyword, unknown keywords, key positional/keyword/missing: the "
     "instance state, the arguments each hand-written parent constructor received, the overflow dict and the __post_init__ count and "
     "timing must equal the model; rejections must be TypeError (ValueError allowed for ill-typed values).",
-    "Trusted: the model in checks/c09.py. Not judged: value of init=False attributes, init=False names passed to a class with an overflow attribute, the overflow attribute's own name.",
+    "Trusted: the model in checks/c09.py. Not judged: value of init=False attributes, a bare declaration in the nearer of two parents shadowing the other parent's default. Diamonds, keyed parents whose key is an optional / required / no constructor parameter are directed cases.",
     "DESIGN.md §3 C09",
 )
 
